@@ -50,7 +50,7 @@ def main():
     mpath = VERIF / "seeded" / "MATRIX.json"
     if mpath.exists() and len(sys.argv) > 1:
         out = json.load(open(mpath))
-    with ThreadPoolExecutor(5) as ex:
+    with ThreadPoolExecutor(10) as ex:
         for name, res in ex.map(run_seed, seeds):
             out[name] = res
             own = name.split("-")[0]
